@@ -7,16 +7,18 @@ Definition pblk_t := (Z * Z * Z)%type.                     (* account block: ide
 Definition blk_t := (Z * Z * Z * bool)%type.               (* ..., verifies at its place in order (generator) *)
 Definition to_blk (t : pblk_t) : blk := let '(i, a, h) := t in mkB i a h.
 Definition blk_of (t : blk_t) : blk := let '(i, a, h, _) := t in mkB i a h.
-(* ..., the momentum itself verifies once its blocks are accepted (generator), its account blocks in order *)
-Definition dmom_t := (Z * Z * Z * bool * list blk_t)%type.
+(* ..., everything Supervisor.ApplyMomentum checks apart from "the pool holds a patch for every header of the content" passes
+   once its blocks are accepted (generator), its account blocks in order (no contract sends: the loop skips them), the
+   headers its content lists (all of them) *)
+Definition dmom_t := (Z * Z * Z * bool * list blk_t * list pblk_t)%type.
 Definition to_smom (t : smom_t) : smom := let '(h, p, n) := t in mkS h p n.
-Definition strip (t : dmom_t) : dmom := let '(h, p, n, _, bs) := t in mkD (mkS h p n) (map blk_of bs).
-Definition blocks_of (t : dmom_t) : list blk_t := let '(_, _, _, _, bs) := t in bs.
+Definition strip (t : dmom_t) : dmom := let '(h, p, n, _, bs, hs) := t in mkD (mkS h p n) (map blk_of bs) (map to_blk hs).
+Definition blocks_of (t : dmom_t) : list blk_t := let '(_, _, _, _, bs, _) := t in bs.
 
 Fixpoint mflag_of (ds : list dmom_t) (d : smom) : bool :=
   match ds with
   | [] => false
-  | t :: r => if smom_eqb (d_mom (strip t)) d then (let '(_, _, _, ok, _) := t in ok) else mflag_of r d
+  | t :: r => if smom_eqb (d_mom (strip t)) d then (let '(_, _, _, ok, _, _) := t in ok) else mflag_of r d
   end.
 Fixpoint bflag_in (bs : list blk_t) (b : blk) : option bool :=
   match bs with
@@ -29,7 +31,7 @@ Fixpoint bflag_of (ds : list dmom_t) (b : blk) : bool :=
   | t :: r => match bflag_in (blocks_of t) b with Some ok => ok | None => bflag_of r b end
   end.
 (* the block is confirmed by a delivered momentum that is on the chain (ApplyBlock refuses it then) *)
-Definition mflag (t : dmom_t) : bool := let '(_, _, _, ok, _) := t in ok.
+Definition mflag (t : dmom_t) : bool := let '(_, _, _, ok, _, _) := t in ok.
 Definition committed (ds : list dmom_t) (chain : list smom) (b : blk) : bool :=
   existsb (fun t => mflag t (* delivered as produced: its blocks are the ones the momentum on the chain confirms *)
                     && existsb (fun x => blk_eqb (blk_of x) b) (blocks_of t) && existsb (smom_eqb (d_mom (strip t))) chain) ds.
@@ -49,7 +51,9 @@ Definition tie_bvalid (ds : list dmom_t) (chain : list smom) (_ : list blk) (b :
    | Some f => match bflag_at ds f b with Some ok => ok | None => bflag_of ds b end
    | None => bflag_of ds b
    end) && negb (committed ds chain b).
-Definition tie_mvalid (ds : list dmom_t) (_ : list smom) (d : dmom) : bool := mflag_of ds (d_mom d).
+(* the momentum: the pool part is the model's own (apply_momentum, the code: guard = false), the rest is the flag *)
+Definition tie_mvalid (ds : list dmom_t) : list smom -> list blk -> dmom -> bool :=
+  apply_momentum false (fun _ d => mflag_of ds (d_mom d)).
 
 Fixpoint prefixb (a b : list smom) : bool :=
   match a, b with
